@@ -166,7 +166,8 @@ Record lcfg := mklcfg { c_ok : bool; c_send_miu : Z; c_recv_lto : Z; c_send_wks 
 
 Definition llc_takeover (local_sec : bool) (gb : list Z) : res lcfg :=
   if starts_ffm gb && (6 <=? len gb) then
-    do p <- pax_decode (drop 3 gb);
+    match pax_decode (drop 3 gb) with
+    | Ok p =>
     Ok (mklcfg true
           (match p_miux p with Some x => x + 128 | None => 128 end)
           (match p_lto p with Some x => x * 10 | None => 100 end)
@@ -174,6 +175,9 @@ Definition llc_takeover (local_sec : bool) (gb : list Z) : res lcfg :=
           (match p_opt p with Some x => Z.land x 3 | None => 0 end)
           (if local_sec then match p_opt p with Some x => (x / 4) mod 2 | None => 0 end else 0)
           (match p_ver p with Some x => x | None => 0 end))
+    | Err DecodeError => Ok (mklcfg false 0 0 0 0 0 0)      (* e19069b: llc.activate logs the error and returns False *)
+    | Err e => Err e | Crash c => Crash c | Hang => Hang
+    end
   else Ok (mklcfg false 0 0 0 0 0 0).
 
 (* two LLCs activated against each other: A runs the Initiator, B the Target *)
